@@ -158,6 +158,35 @@ def gen_burst(rng, root, files):
     return msgs
 
 
+def gen_twins(rng, root, files):
+    """the SAME request twice (or three times) back to back on one document of some size, and a notification about that
+    document right behind them, round after round: whatever the server shares between identical requests in flight
+    (coalescing, caches keyed by document) must still answer every one of them exactly once"""
+    g = goldgen.Gen(rng, max_depth=2)
+    f = rng.choice(files[:4])
+    uri = lsp.file_uri(f)
+    nm = os.path.basename(f)[:-4]
+    body, _, _ = g.gen_program(n_decls=rng.randint(200, 500), header="none")
+    text = "class %s\n" % nm + body
+    msgs = [("notif", "textDocument/didChange", {"textDocument": {"uri": uri, "version": 2}, "contentChanges": [{"text": text}]})]
+    for i in range(rng.randint(6, 16)):
+        m = rng.choice(SUPPORTED_POS + ["textDocument/diagnostic"] * 3 + SUPPORTED_DOC)
+        pos = {"line": rng.randint(0, 200), "character": rng.choice([0, 2, 4, 7])}
+        params = {"textDocument": {"uri": uri}, "position": pos} if m in SUPPORTED_POS else {"textDocument": {"uri": uri}}
+        for _ in range(rng.choice([2, 2, 3])):
+            msgs.append(("req", m, params))
+        k = rng.random()
+        if k < 0.5:
+            msgs.append(("notif", "textDocument/didChange", {"textDocument": {"uri": uri, "version": i + 3}, "contentChanges": [{"text": text + "\n; %d\n" % i}]}))
+        elif k < 0.7:
+            msgs.append(("notif", "textDocument/didSave", {"textDocument": {"uri": uri}}))
+        elif k < 0.85:
+            msgs.append(("notif", "textDocument/didClose", {"textDocument": {"uri": uri}}))
+        if rng.random() < 0.5:
+            msgs.append(("req", m, params))
+    return msgs
+
+
 def gen_backlog(rng, root, files):
     """many pooled requests on a document of some size and the shutdown right behind them: requests still queued when
     the shutdown arrives belong to "everything it received before the shutdown" and must be answered"""
@@ -179,7 +208,8 @@ def run_script(binary, seed):
     root = tempfile.mkdtemp(prefix="goldverif-c01-")
     try:
         files = make_workspace(rng, root)
-        msgs = gen_burst(rng, root, files) if seed % 8 == 7 else gen_backlog(rng, root, files) if seed % 8 == 3 else gen_script(rng, root, files)
+        msgs = (gen_burst(rng, root, files) if seed % 8 == 7 else gen_backlog(rng, root, files) if seed % 8 == 3
+                else gen_twins(rng, root, files) if seed % 8 == 5 else gen_script(rng, root, files))
         s = lsp.Session(binary, root)
         init = s.initialize(root)
         if init is None:
